@@ -36,7 +36,7 @@ def token_labels(g, text, version):
 def _strip(sh):
     """leaf texts are compared modulo surrounding blanks (f-string literal parts swallow the layout blanks)"""
     if sh[0] == 'L':
-        return ('L', sh[1].strip(' '))
+        return ('L', sh[1].strip(' ')) + tuple(sh[2:])       # (text, leaf kind)
     return ('N', sh[1], [_strip(k) for k in sh[2]])
 
 
